@@ -181,6 +181,10 @@ func vCorpusFile(i int) (string, []byte) {
 	return files[i], b
 }
 
+// vMapOrderSite / vMapOrderSites: (engine only) symbolic map iteration order at one range site.
+func vMapOrderSite(k int)  {}
+func vMapOrderSites() int { return 0 }
+
 // vFSLog: (engine only) the paths handed to the file-system stubs so far.
 func vFSLog() []string { return nil }
 
